@@ -51,14 +51,52 @@ pub fn generate(seed: u64) -> Colossal {
     ];
     let fam = *rng.pick(families);
     let mut short: Vec<String> = fam.iter().map(|s| s.to_string()).collect();
-    rng.shuffle(&mut short);
-    let short_before = rng.below(short.len());
+    let short_before;
+    if rng.chance(1, 2) {
+        // deliberate: the longest and the shortest pattern come before the fillers, the suffixes
+        // in between after them - their states are the failure targets of the longest pattern's
+        // states and get the highest ids
+        short.sort_by_key(|p| p.len());
+        let longest = short.pop().unwrap();
+        let shortest = short.remove(0);
+        rng.shuffle(&mut short);
+        let mut v = vec![shortest, longest];
+        if rng.chance(1, 2) {
+            v.reverse();
+        }
+        short_before = v.len();
+        v.extend(short);
+        short = v;
+    } else {
+        rng.shuffle(&mut short);
+        short_before = rng.below(short.len());
+    }
     let nf = rng.range(8, 12);
     let before: Vec<Vec<u8>> = short[..short_before].iter().map(|s| s.as_bytes().to_vec()).collect();
-    // root + states of the short patterns given first + fillers = 2^24 - r
-    let r = rng.below(4);
-    let have = 1 + trie_states(&before);
-    let need = TARGET - r - have;
+    let all: Vec<Vec<u8>> = short.iter().map(|s| s.as_bytes().to_vec()).collect();
+    // State ids are handed out in insertion order (0 = root, 1 = the dead state). The t-th state
+    // created by the short patterns that follow the fillers gets the id 2^24 exactly.
+    let n_new = trie_states(&all) - trie_states(&before);
+    // the new states in creation order, with their depth
+    let mut seen = std::collections::BTreeSet::new();
+    for p in &before {
+        for i in 1..=p.len() {
+            seen.insert(p[..i].to_vec());
+        }
+    }
+    let mut new_depths = vec![];
+    for p in &all[short_before..] {
+        for i in 1..=p.len() {
+            if seen.insert(p[..i].to_vec()) {
+                new_depths.push(i);
+            }
+        }
+    }
+    let depth1: Vec<usize> = new_depths.iter().enumerate().filter(|(_, d)| **d == 1).map(|(i, _)| i).collect();
+    // half of the time the id 2^24 (whose low 24 bits are those of the root) goes to a state
+    // directly below the root
+    let t = if !depth1.is_empty() && rng.chance(1, 2) { *rng.pick(&depth1) } else { rng.below(n_new + 2) };
+    let need = TARGET - t - 2 - trie_states(&before);
     let base = need / nf;
     let mut fillers: Vec<(u8, usize)> = (0..nf).map(|i| (b'0' + i as u8, base)).collect();
     fillers[0].1 += need - base * nf;
